@@ -178,6 +178,14 @@ def replay (j : Json) : R Verdict := do
     if (fieldD twin "sameDelivered").getBool?.toOption == some true
         && (fieldD twin "retA").compress != (fieldD twin "retB").compress then
       pf := ("C09", s!"two runs with the same inputs in which the same results were delivered in the same order returned different reports: {(fieldD twin "retA").compress} when {(fieldD twin "withheld").compress} had finished but were not yet delivered, {(fieldD twin "retB").compress} when they had not finished") :: pf
+  -- C09: a run that ended by itself was repeated with the same completions in the same order, one per round
+  let paced := fieldD j "paced"
+  if !paced.isNull then
+    if (fieldD paced "startsAgree").getBool?.toOption == some false then
+      pf := ("C09", s!"two runs with the same inputs and the same results delivered in the same order, once in bursts and once one at a time, evaluated different parameter sets: {(fieldD paced "firstDiff").compress}") :: pf
+    else if (fieldD paced "sameDelivered").getBool?.toOption == some true && (fieldD paced "returnedB").getBool?.toOption == some true
+        && (fieldD paced "retA").compress != (fieldD paced "retB").compress then
+      pf := ("C09", s!"two runs with the same inputs and the same results delivered in the same order, once in bursts and once one at a time, returned different reports: {(fieldD paced "retA").compress} / {(fieldD paced "retB").compress}") :: pf
   -- per-round scan: stop requests, failures, the return value
   let mut stopRound : Option Nat := none        -- first round whose stimulus was an abort request or a failure
   let mut firstFail : Option Nat := none        -- error code of a failure taken before any abort request
